@@ -48,12 +48,12 @@ Sensitivity (quick tier, seed 1, one mutant at a time on a scratch copy):
   * ``_parse_header`` final quote-strip guard ``len(value) >= 2 and ...`` -> ``value and ...`` (a value
     that is exactly one ``"`` becomes empty: field rejected as 'missing name', file turned into an
     argument) ............................................................ caught (C30.multipart_exact[.rejected])
-
   * ``"application/unknown"`` default hoisted out of the per-part loop (a file without Content-Type
     that follows a typed file inherits the earlier file's type) .......... caught (C30.multipart_exact;
     label ``untyped_file_after_typed_file``)
 
-Open findings on the current tree (known_findings.d/C30.json, write-ups in findings_inbox/):
+Findings of this check (write-ups in findings_inbox/; both since repaired in /repo and marked fixed,
+their replays under replays/C30/ now hold as regression replays):
   * F-C30-max-parts-off-by-one: a body with exactly ``max_parts`` parts is rejected (the empty text
     before the first delimiter is counted); sig ``C30.limit_parts_at_max_rejected``.
   * F-C30-rfc2231-quote-backslash: ext-value parameters whose value contains ``"`` or ``\\`` come back
